@@ -36,6 +36,16 @@ def gen_cases(ctx):
             prior = rng.randint(1, n)
             kept = sum(1 for t in table[:prior] if not (t[0] == 'n' and cfg['skipNone']))
             pre = (prior, kept)
+        if prior is None and rng.random() < 0.25:
+            # a stage that has been in service for long: totals around 2**31 and 2**63 are ordinary Python integers
+            big = rng.choice([2 ** 31, 2 ** 31, 2 ** 32, 2 ** 63]) - rng.randint(1, max(1, n - 1))
+            pre = (big, big - rng.choice([0, 0, 3, 1000]))
+        elif prior is None and rng.random() < 0.2:
+            # totals that END on a ratio whose third decimal of the percentage is a 5 (14.375 %% ...): printed as '{:.2%%}' prints it
+            kept_all = sum(1 for t in table if not (t[0] == 'n' and cfg['skipNone']))
+            fin = rng.choice([(160, 23), (160, 49), (160, 51), (160, 87), (160, 93), (320, 46)])
+            if fin[1] >= kept_all and fin[0] - n >= fin[1] - kept_all:
+                pre = (fin[0] - n, fin[1] - kept_all)
         label = 'info'
         if prior is None and rng.random() < 0.33:
             # the function fails for one element: the failing element's result is never taken, so it is not counted —
